@@ -414,8 +414,10 @@ def _check_return(ctx, fi, cfg, dom, ret, R, env, facts, law_of, grid_col, label
             if isinstance(a, ast.Attribute) and is_self_attr(a.value) and a.value.attr == tab and not masked:
                 return "N"
             return None
-        if isinstance(e, ast.Call) and call_name(e) in ("max", "np.max", "numpy.max") and len(e.args) == 1:
-            a = e.args[0]
+        is_max_method = isinstance(e, ast.Call) and isinstance(e.func, ast.Attribute) and e.func.attr == "max" and not e.args and \
+            not e.keywords and not (isinstance(e.func.value, ast.Name) and e.func.value.id in ("np", "numpy"))
+        if (isinstance(e, ast.Call) and call_name(e) in ("max", "np.max", "numpy.max") and len(e.args) == 1) or is_max_method:
+            a = e.func.value if is_max_method else e.args[0]
             if isinstance(a, ast.Call) and isinstance(a.func, ast.Attribute) and a.func.attr == "get_level_values" \
                     and a.args and const_value(a.args[0]) == "class_index":
                 idx = a.func.value
@@ -573,6 +575,21 @@ def _selection(R, atom, label_base):
                             if lab is None or len(bases) != 1 or None in bases:
                                 return base.attr, n.attr, None
                             return base.attr, n.attr, lab - Affine(const=list(bases)[0])
+    # the column first, then the mask:  self.T.C[<class_index level> == E]
+    for n in ast.walk(R):
+        if isinstance(n, ast.Subscript) and isinstance(n.value, ast.Attribute) and is_self_attr(n.value.value) and \
+                n.value.value.attr.startswith("_lut") and isinstance(n.slice, ast.Compare) and len(n.slice.ops) == 1 and \
+                isinstance(n.slice.ops[0], ast.Eq):
+            tabname, col = n.value.value.attr, n.value.attr
+            lhs, rhs = n.slice.left, n.slice.comparators[0]
+            for a, b in ((lhs, rhs), (rhs, lhs)):
+                if isinstance(a, ast.Call) and isinstance(a.func, ast.Attribute) and a.func.attr == "get_level_values" and a.args \
+                        and const_value(a.args[0]) == "class_index":
+                    lab = affine_eval(b, atom)
+                    bases = label_base.get(tabname, {None})
+                    if lab is None or len(bases) != 1 or None in bases:
+                        return tabname, col, None
+                    return tabname, col, lab - Affine(const=list(bases)[0])
     return None
 
 
